@@ -215,6 +215,8 @@ def problems(draw, max_surveys=3, max_epochs=8, max_poly=3, n_rows=(4, 8), units
                 keys = draw(st.permutations([3, 11, 20, 7, 1][:ns]))
             spec["keys"] = list(keys)
     spec["time_input"] = draw(st.sampled_from(["float", "float", "tcb", "utc"]))
+    if ns == 1 and not spec.get("t_ref") and not spec.get("t_ref_false") and draw(st.sampled_from([False, False, False, True])):
+        sv[0]["slice_lead"] = draw(st.integers(1, 3))
     if draw(st.sampled_from([False, False, False, True])):
         for s_ in sv:
             lo_, hi_ = min(s_["t"]), max(s_["t"])
@@ -266,7 +268,31 @@ def build_rvdata(s, time_input="float", t_ref=None, t_ref_scale="tcb"):
     elif t_ref is not None:
         tr = Time(t_ref, format="mjd", scale="tcb")
         kw["t_ref"] = tr.utc if t_ref_scale == "utc" else tr
+    k_lead = int(s.get("slice_lead") or 0)
+    if k_lead and not kw and time_input == "float":
+        # the data set is obtained by slicing a longer one: `k_lead` earlier epochs are observed as well and cut off again
+        # (a slice is a data set of its own, referred to its own earliest epoch)
+        lead_t = np.nanmin(t) - 1.0 - np.arange(k_lead, dtype=float)
+        full = RVData(t=np.concatenate([t, lead_t]), rv=np.concatenate([rv_, np.full(k_lead, float(np.nanmedian(rv_)))]) * unit(s["unit"]),
+                      rv_err=np.concatenate([err_, np.full(k_lead, float(np.nanmedian(err_)))]) * unit(s.get("err_unit", s["unit"])))
+        return full[k_lead:]
     return RVData(t=t_in, rv=rv_ * unit(s["unit"]), rv_err=err_ * unit(s.get("err_unit", s["unit"])), **kw)
+
+
+def check_public_epoch(data, prob, spec=None):
+    """The reference epoch a data object shows to its user is the one the computation is referred to (Problem.t_ref)."""
+    from vt.runner import Violation
+
+    if isinstance(data, (list, tuple, dict)):
+        return
+    if spec is not None and spec.get("t_ref_false"):
+        if data.t_ref is not None or float(data._t_ref_bmjd) != 0.0:
+            raise Violation("t_ref=False: the data object still carries a reference epoch", t_ref=repr(data.t_ref))
+        return
+    pub = None if data.t_ref is None else float(data.t_ref.tcb.mjd)
+    if pub is None or abs(pub - float(prob.t_ref)) > 1e-9 or abs(float(data._t_ref_bmjd) - pub) > 1e-9:
+        raise Violation("the data object's reference epoch (public t_ref / the number the likelihood uses) is not the declared one",
+                        public_t_ref=pub, internal=float(data._t_ref_bmjd), declared=float(prob.t_ref))
 
 
 def build_data(spec):
